@@ -45,7 +45,7 @@ def _variants(kind, p, t, rng, n, local=True):
 
 def recipe(kind, p, t, rng, nvar, fam, local=True):
     vs = _variants(kind, p, t, rng, nvar, local)
-    return {'driver': 'conn', 'kind': kind, 'family': fam,
+    return {'driver': 'conn', 'kind': kind, 'family': fam, 'rep0': int(rng.integers(0, 5)),
             'variants': [{'p': np.asarray(pp).astype(int).tolist(), 't': np.asarray(tt).astype(int).tolist()}
                          for pp, tt in vs]}
 
@@ -167,7 +167,7 @@ def execute(rec):
                 P[:, v['ids']] = np.array(v['p'], dtype=float)
                 m = U.mesh_class(kind)(P, np.array(v['t'], dtype=np.int64))
                 return conn_event(m, with_coords=False)
-            m = U.make(kind, v['p'], v['t'])
+            m = U.make(kind, v['p'], v['t'], rep=(j + rec.get('rep0', 0)) % 5)     # the same mesh, handed over differently
             ev1 = conn_event(m, with_coords=True, scale=1)
             if j == 0 and rec.get('battery', True):
                 extra = []
